@@ -279,8 +279,48 @@ def main_stridefold(cases):
     return out
 
 
+def main_prelu(cases):
+    """[seed]: the PRELU network netgen draws for that seed; what convert_prelu makes of the operator: 0 RELU, 1 LEAKY_RELU,
+    2 MAXIMUM, 3 ADD (of RELU and the slope times MINIMUM); plus the slope codes, their zero point and the scale as an
+    exact fraction"""
+    import numpy as np
+    from fractions import Fraction
+    from ethosu.vela import model_reader
+    from ethosu.vela.architecture_features import Accelerator, create_default_arch
+    from ethosu.vela.operation import Op
+    from ethosu.vela.tflite_graph_optimiser import convert_prelu
+    arch = create_default_arch(Accelerator.Ethos_U55_128)
+    out = []
+    tmp = tempfile.mkdtemp(prefix="rw_", dir=os.environ.get("VERIF_TMP"))
+    for i, (seed,) in enumerate(cases):
+        net = netgen.generate("single:prelu", "rw%d" % seed)
+        path = os.path.join(tmp, "p%d.tflite" % i)
+        open(path, "wb").write(net.build())
+        nng, _ = model_reader.read_model(path, model_reader.ModelReaderOptions())
+        os.remove(path)
+        ops = [o for o in nng.subgraphs[0].get_all_ops() if o.type == Op.Prelu]
+        if not ops:
+            out.append({"kind": -1})
+            continue
+        op = ops[0]
+        op.run_on_npu = True
+        op.set_ifm_ofm_shapes()
+        alpha = op.inputs[1]
+        codes = [int(v) for v in np.asarray(alpha.values).reshape(-1)]
+        zp = int(np.asarray(alpha.quantization.zero_point).reshape(-1)[0])
+        fr = Fraction(float(np.float32(np.asarray(alpha.quantization.scale_f32).reshape(-1)[0])))
+        res = convert_prelu(op, arch, nng)
+        kind = {Op.Relu: 0, Op.LeakyRelu: 1, Op.Maximum: 2, Op.Add: 3}.get(res.type, 9)
+        out.append({"kind": kind, "codes": codes, "zp": zp, "sn": fr.numerator, "sd": fr.denominator, "dtype": str(alpha.dtype)})
+    os.rmdir(tmp)
+    return out
+
+
 def main():
     cases = json.load(open(sys.argv[1]))
+    if len(sys.argv) > 3 and sys.argv[3] == "prelu":
+        json.dump(main_prelu(cases), open(sys.argv[2], "w"))
+        return
     if len(sys.argv) > 3 and sys.argv[3] == "stridefold":
         json.dump(main_stridefold(cases), open(sys.argv[2], "w"))
         return
